@@ -550,7 +550,47 @@ class InitAdaptive(Contract):
                 "initialized": model.get("initialized_adaptive", "False") == "True"}
 
 
-CONTRACTS += [InitActive(), InitOld(), InitAdaptive()]
+class InitAdaptiveRefusal(InitAdaptive):
+    """the same function WITHOUT the precondition: an invalid level range is refused (AssertionError) and a refused request leaves the object exactly as it
+    was — level range, adaptive maximum, both index sets and the initialised flag — so a caller that catches the refusal keeps a valid scheme; a request
+    that is accepted had a valid range"""
+    label = "CombiScheme.init_adaptive_combi_scheme[any request: refusal leaves the scheme untouched]"
+    total = False
+
+    def pre(self, S, env):
+        return []
+
+    @staticmethod
+    def _same(a, b):
+        if isinstance(a, SetV) and isinstance(b, SetV):
+            return a.arr == b.arr
+        if isinstance(a, bool) and isinstance(b, bool):
+            return z3.BoolVal(a == b)
+        if isinstance(a, (SetV, Obj)) or isinstance(b, (SetV, Obj)):
+            return z3.BoolVal(a is b)
+        return V_(a) == V_(b) if not isinstance(a, bool) and not isinstance(b, bool) and not z3.is_bool(a) else (a == b)
+
+    def post_raise(self, S, old, env, exc_name):
+        if exc_name != "AssertionError":
+            return None
+        f, g = env["self"].fields, old["self"].fields
+        keys = ("lmin", "lmax", "lmax_adaptive", "active_index_set", "old_index_set", "initialized_adaptive", "dim")
+        same = [z3.BoolVal(False) if k not in f else self._same(f[k], g[k]) for k in keys]
+        return [Cl("a-refused-request-leaves-the-scheme-untouched", z3.And(*same), prop=True),
+                Cl("refused-only-for-an-invalid-level-range", z3.Not(z3.And(old["lmax"] >= old["lmin"], old["lmin"] >= 0)))]
+
+    def post(self, S, old, env, result):
+        return InitAdaptive.post(self, S, old, env, result) + [
+            Cl("accepted-only-for-a-valid-level-range", z3.And(old["lmax"] >= old["lmin"], old["lmin"] >= 0), prop=True)]
+
+    @staticmethod
+    def model_to_input(model):
+        d = InitAdaptive.model_to_input(model)
+        d["refusal"] = True
+        return d
+
+
+CONTRACTS += [InitActive(), InitOld(), InitAdaptive(), InitAdaptiveRefusal()]
 
 
 # --------------------------------------------------------------------------- getCombiScheme (adaptive branch): the scheme of exactly the current index set
